@@ -4,6 +4,7 @@ indifferent to local names, nesting of tests and hoisting.  ``None`` means "not 
 
 from __future__ import annotations
 
+import ast
 from typing import Any
 
 from .minieval import Evaluator, Host, Raised, Refused, Sym, UserFunc
@@ -111,3 +112,223 @@ def fold_resolve(repo: Repo) -> dict | None:
     except (TypeError, KeyError, IndexError, ValueError, AttributeError):
         return None
     return out
+
+
+def _uleb(n: int) -> bytes:
+    out = bytearray()
+    while True:
+        b = n & 0x7F
+        n >>= 7
+        if n == 0:
+            out.append(b)
+            return bytes(out)
+        out.append(b | 0x80)
+
+
+def _sleb(n: int) -> bytes:
+    out = bytearray()
+    while True:
+        b = n & 0x7F
+        n >>= 7
+        if (n == 0 and not b & 0x40) or (n == -1 and b & 0x40):
+            out.append(b)
+            return bytes(out)
+        out.append(b | 0x80)
+
+
+def leb_values() -> list[int]:
+    vals = set(range(-300, 300))
+    for k in range(6, 71):
+        for d in (-1, 0, 1):
+            vals.add((1 << k) + d)
+            vals.add(-(1 << k) + d)
+    return sorted(vals)
+
+
+class _Stream:
+    def __init__(self, data: bytes = b""):
+        self.data, self.pos, self.written = data, 0, bytearray()
+
+    def sym(self) -> Sym:
+        def read(n=-1):
+            if n is None or n < 0:
+                n = len(self.data) - self.pos
+            chunk = self.data[self.pos:self.pos + n]
+            self.pos += len(chunk)
+            return chunk
+
+        def write(b):
+            self.written += bytes(b)
+            return len(bytes(b))
+
+        return Sym("stream", {}, {"read": Host(read), "write": Host(write), "tell": Host(lambda: self.pos)})
+
+
+def fold_leb128(repo: Repo) -> dict | None:
+    """LEB128._write / _read folded over ~700 values for both signednesses against the reference (S)LEB128 encoding."""
+    from .minieval import Exhausted
+
+    wr = repo.func("types/leb128.py", "LEB128._write")
+    rd = repo.func("types/leb128.py", "LEB128._read")
+    out: dict = {"cases": 0, "write_bad": [], "read_bad": [], "loop_bad": []}
+    try:
+        for signed in (False, True):
+            cls = Sym("leb", {"signed": signed}, {"__new__": Host(lambda c, v: v)})
+            for v in leb_values():
+                st = _Stream()
+                out["cases"] += 1
+                try:
+                    n = Evaluator({}, steps=4000).call_user(UserFunc(wr.node), [cls, st.sym(), v], {})
+                    got: Any = bytes(st.written)
+                except Raised:
+                    got, n = "raise", None
+                except Exhausted:
+                    out["loop_bad"].append(("write", signed, v))
+                    continue
+                if v < 0 and not signed:
+                    if got != "raise":
+                        out["write_bad"].append((signed, v, got, "refusal of a negative value"))
+                    continue
+                want = _sleb(v) if signed else _uleb(v)
+                if got != want or n != len(want):
+                    out["write_bad"].append((signed, v, got.hex() if isinstance(got, bytes) else got, want.hex()))
+                # the reader must give the value back from the reference encoding, consuming exactly those bytes
+                st = _Stream(want + b"\xaa")
+                try:
+                    r = Evaluator({}, steps=4000).call_user(UserFunc(rd.node), [cls, st.sym()], {})
+                except Raised as e:
+                    r = f"raise {e}"
+                except Exhausted:
+                    out["loop_bad"].append(("read", signed, v))
+                    continue
+                if r != v or st.pos != len(want):
+                    out["read_bad"].append((signed, v, want.hex(), r, st.pos))
+            # a truncated value must raise, not loop or return
+            st = _Stream(b"\x80\x80")
+            try:
+                r = Evaluator({}, steps=4000).call_user(UserFunc(rd.node), [cls, st.sym()], {})
+                out["read_bad"].append((signed, "truncated input 8080", "", r, st.pos))
+            except Raised:
+                pass
+            except Exhausted:
+                out["loop_bad"].append(("read", signed, "truncated input"))
+    except Refused:
+        return None
+    except (TypeError, KeyError, IndexError, ValueError, AttributeError):
+        return None
+    return out
+
+
+def fold_structure_call(repo: Repo) -> dict | None:
+    """StructureMetaType.__call__ over (field list, arguments): which of {initialise from the argument, default-construct, parse} is taken.
+    The bytes shortcut (initialise) is only indistinguishable from parsing when the structure has exactly one field, of a bytes type, and the
+    argument has exactly its size; in every other case bytes must be parsed (so that short input raises)."""
+    fi = repo.func("types/structure.py", "StructureMetaType.__call__")
+
+    def ftype(kind: str, size: int) -> Sym:
+        return Sym(f"{kind}{size}", {"size": size, "is_bytes": kind == "char"})
+
+    def fld(name: str, t: Sym) -> Sym:
+        return Sym(f"field:{name}", {"_name": name, "name": name, "type": t})
+
+    layouts = {
+        "one char[4] field": [fld("magic", ftype("char", 4))],
+        "char[4] then uint32": [fld("magic", ftype("char", 4)), fld("version", ftype("uint", 4))],
+        "one uint32 field": [fld("version", ftype("uint", 4))],
+        "no fields": [],
+    }
+    arglists = {"4 bytes": (b"abcd",), "6 bytes": (b"abcdef",), "no arguments": (), "an int": (5,)}
+    out: dict = {"cases": 0, "bad": []}
+    try:
+        for lname, fields in layouts.items():
+            for aname, args in arglists.items():
+                trace: list = []
+                obj = Sym("obj", {f.attrs["_name"]: "<value>" for f in fields})
+
+                def type_call(c, *a, trace=trace, obj=obj, **kw):
+                    trace.append(("init", a))
+                    return obj
+
+                def setattr_(o, name, value, trace=trace):
+                    trace.append(("set", name, value))
+
+                def super_():
+                    def parse(*a, trace=trace, **kw):
+                        trace.append(("parse", a))
+                        return Sym("parsed")
+
+                    return Sym("super", {}, {"__call__": Host(parse)})
+
+                def issub(t, k):
+                    if k is bytes:
+                        return isinstance(t, Sym) and bool(t.attrs.get("is_bytes"))
+                    raise Refused("issubclass against a non-builtin")
+
+                env = {"type": Sym("type", {}, {"__call__": Host(type_call)}), "object": Sym("object", {}, {"__setattr__": Host(setattr_)}),
+                       "super": Host(super_), "issubclass": Host(issub), "isinstance": Host(lambda o, k: k is bytes and isinstance(o, bytes)),
+                       "getattr": Host(lambda o, n, *d: o.attrs.get(n, *d) if isinstance(o, Sym) else d[0]), "bytes": bytes}
+                cls = Sym("S", {"__fields__": fields})
+                Evaluator(env, steps=4000).call_user(UserFunc(fi.node), [cls, *args], {})
+                kinds = [t[0] for t in trace if t[0] in ("init", "parse")]
+                single_bytes = len(fields) == 1 and fields[0].attrs["type"].attrs["is_bytes"] and args and isinstance(args[0], bytes) \
+                    and len(args[0]) == fields[0].attrs["type"].attrs["size"]
+                want = ["init"] if (single_bytes or not args) else ["parse"]
+                out["cases"] += 1
+                if kinds != want:
+                    out["bad"].append((lname, aname, kinds, want))
+                elif kinds == ["init"]:
+                    sets = {t[1]: t[2] for t in trace if t[0] == "set"}
+                    want_vals = {fields[0].attrs["_name"]: "<value>"} if single_bytes else {}
+                    want_sizes = {fields[0].attrs["_name"]: len(args[0])} if single_bytes else {}
+                    if sets.get("_values") != want_vals or sets.get("_sizes") != want_sizes:
+                        out["bad"].append((lname, aname, f"bookkeeping {sets}", f"_values={want_vals} _sizes={want_sizes}"))
+    except Refused:
+        return None
+    except (TypeError, KeyError, IndexError, ValueError, AttributeError):
+        return None
+    return out
+
+
+def fold_mark_unary_minus(repo: Repo, max_len: int = 5) -> dict | None:
+    """Expression._mark_unary_minus over *every* token list up to ``max_len`` over a 7-token alphabet (bounded-exhaustive): a '-' is unary exactly
+    when it starts the list or follows '(' or an operator - where a '-' that was itself just marked unary counts as an operator."""
+    import itertools
+
+    fi = repo.func_opt("expression.py", "Expression._mark_unary_minus")
+    if fi is None:
+        return None
+    ci = repo.cls("Expression")
+    try:
+        tables = {}
+        for name in ("binary_operators", "unary_operators"):
+            node = ci.attrs.get(name)
+            if not isinstance(node, ast.Dict):
+                return None
+            tables[name] = {k.value: None for k in node.keys if isinstance(k, ast.Constant)}
+        marker = next((k for k in tables["unary_operators"] if k != "~"), None)
+        if marker is None:
+            return None
+        ops = set(tables["binary_operators"]) | set(tables["unary_operators"])
+        alphabet = ["-", "~", "(", ")", "7", "+", "<<"]
+        out: dict = {"cases": 0, "bad": []}
+        me = Sym("expr", dict(tables))
+        env = {"set": Host(lambda it=(): set(it))}
+        for n in range(0, max_len + 1):
+            for toks in itertools.product(alphabet, repeat=n):
+                want = []
+                for i, t in enumerate(toks):
+                    if t == "-" and (i == 0 or want[i - 1] in ops or want[i - 1] == "("):
+                        want.append(marker)
+                    else:
+                        want.append(t)
+                got = Evaluator(env, steps=3000).call_user(UserFunc(fi.node), [me, list(toks)], {})
+                out["cases"] += 1
+                if list(got) != want:
+                    out["bad"].append((list(toks), list(got), want))
+                    if len(out["bad"]) > 5:
+                        return out
+        return out
+    except Refused:
+        return None
+    except (TypeError, KeyError, IndexError, ValueError, AttributeError):
+        return None
